@@ -17,7 +17,7 @@ import (
 func init() {
 	core.Register(&core.Prop{
 		ID: "C19",
-		Rule: "case = one network of 2-60 (300 thorough) nodes on a jittered grid with positive, well separated coordinates (trees, grids with diagonals, almost regular lattices of straight equal-speed links with thousands of near-tied chains, two components, a long cheap detour against a short expensive chain, fast-far against slow-near) whose links are poly-lines with 0-4 bends and positive speeds over two decades, added in random order and orientation, for Distance or Time minimisation, queried at 8 point pairs (random and exactly on nodes); a second phase (thorough tier only: building one takes a minute) builds 32 jittered grids of 50 000-110 000 nodes, half of them in a lon/lat window with 1e-4 degree spacing; 40% of networks are built incrementally in 2-4 batches with 4 queries after each batch, judged against exactly the links added so far (later AddLink calls then create new nodes and link already-existing nodes on a network that has answered queries); oracle = the harness's own graph (nodes by exact end-point equality) with Dijkstra: start/end nodes are the true nearest nodes, the returned links form a chain between them, reported totals are the sums over the returned links, the chosen cost equals the Dijkstra optimum (1e-9), disconnected pairs give an empty route; " +
+		Rule: "case = one network of 2-60 (300 thorough) nodes on a jittered grid with positive, well separated coordinates (trees, grids with diagonals, almost regular lattices of straight equal-speed links with thousands of near-tied chains, two components, a long cheap detour against a short expensive chain, fast-far against slow-near) whose links are poly-lines with 0-4 bends and positive speeds over four decades (0.01..100; a sixth of the networks with one common speed), added in random order and orientation, for Distance or Time minimisation, queried at 8 point pairs (random and exactly on nodes); a second phase (thorough tier only: building one takes a minute) builds 32 jittered grids of 50 000-110 000 nodes, half of them in a lon/lat window with 1e-4 degree spacing; 40% of networks are built incrementally in 2-4 batches with 4 queries after each batch, judged against exactly the links added so far (later AddLink calls then create new nodes and link already-existing nodes on a network that has answered queries); oracle = the harness's own graph (nodes by exact end-point equality) with Dijkstra: start/end nodes are the true nearest nodes, the returned links form a chain between them, reported totals are the sums over the returned links, the chosen cost equals the Dijkstra optimum (1e-9), disconnected pairs give an empty route; " +
 			"an evaluation is one query judged; non-trivial = query whose optimal route has >= 2 links and differs in cost from the fewest-links route; distinct by (network hash, query)",
 		Assumptions: []string{"no self loops, no parallel links (as the property states)", "queries whose nearest node is ambiguous within 1e-9 relative are skipped"},
 		Phases: []core.Phase{{Name: "networks", NumCases: func(t string) int {
@@ -44,7 +44,7 @@ func init() {
 }
 
 func floorsC19() map[string]int64 {
-	return map[string]int64{"query.connected": 5000, "query.disconnected": 200, "query.same_node": 100, "query.optimal_differs_from_fewest_links": 200, "minimise.Distance": 300, "minimise.Time": 300, "topology.detour": 100, "topology.two_components": 100, "topology.grid": 100, "topology.tree": 100, "topology.near_tie_lattice": 100, "query.on_node": 1000, "order.fastest_first": 100, "query.nearly_equal_points_across_a_bisector": 500, "order.incremental_queries_between_addlinks": 300, "incremental.link_between_existing_nodes_after_query": 300}
+	return map[string]int64{"query.connected": 5000, "query.disconnected": 200, "query.same_node": 100, "query.optimal_differs_from_fewest_links": 200, "minimise.Distance": 300, "minimise.Time": 300, "topology.detour": 100, "topology.two_components": 100, "topology.grid": 100, "topology.tree": 100, "topology.near_tie_lattice": 100, "query.on_node": 1000, "order.fastest_first": 100, "speeds.all_equal_below_1": 50, "query.nearly_equal_points_across_a_bisector": 500, "order.incremental_queries_between_addlinks": 300, "incremental.link_between_existing_nodes_after_query": 300}
 }
 
 type link struct {
@@ -152,7 +152,22 @@ func genNetwork(c *core.Ctx, r *gen.R) (*netw, string) {
 	if c.Thorough() && r.Chance(0.1) {
 		maxSide = 17
 	}
-	speed := func() float64 { return math.Pow(10, r.Range(0, 2)) }
+	// speeds over four decades, also below 1 (km/s, degrees/s); in a sixth of the networks every
+	// link has the same speed
+	uniform := 0.0
+	if r.Chance(0.17) {
+		uniform = math.Pow(10, r.Range(-2, 2))
+		c.Count("speeds.all_equal")
+		if uniform < 1 {
+			c.Count("speeds.all_equal_below_1")
+		}
+	}
+	speed := func() float64 {
+		if uniform > 0 {
+			return uniform
+		}
+		return math.Pow(10, r.Range(-2, 2))
+	}
 	bends := func() int { return r.Intn(5) }
 	grid := func(w, h int, x0, y0 float64) []int {
 		ids := make([]int, 0, w*h)
